@@ -191,3 +191,68 @@ Proof.
   assert (He : enumerateTables ex_mem nofail 0x2000 true = (ex_state, IOk)) by (vm_compute; reflexivity).
   rewrite He in H. exact H.
 Qed.
+
+(** ---- probeForACPI, DriverInit, and the two in sequence ---- *)
+(** the probe over the whole window returns the driver {rsdtAddr: 0x2000, useXSDT: true} *)
+Example C14_trans_probe_run :
+  go_acpi_probeForACPI 100 w0 ld 16 0x105f 0x1000 (T.o_map None 0) =
+  GOk (mk_go_acpi_world [unmapev 1; mapev 1], (true, 0x2000, true)).
+Proof. vm_compute. reflexivity. Qed.
+
+(** no root pointer / mapFn error: nil *)
+Example C14_trans_probe_nil :
+  go_acpi_probeForACPI 100 w0 ld 16 0x1010 0x1000 (T.o_map None 0) = GOk (mk_go_acpi_world [unmapev 1; mapev 1], (false, 0, false)) /\
+  go_acpi_probeForACPI 100 w0 ld 16 0x105f 0x1000 (T.o_map (Some 0) 0) = GOk (mk_go_acpi_world [unmapev 1; mapev 1], (false, 0, false)).
+Proof. split; vm_compute; reflexivity. Qed.
+
+(** DriverInit on that driver: nil, printTableInfo called last, the trace before it stands for the model's final state *)
+Example C14_trans_init_run :
+  match go_acpi_acpiDriver_DriverInit 200 w0 0x2000 true ld (T.o_idmap nofail) with
+  | GOk (w, e) => Some (e, hd_error (f_world_trace w), T.abs (f_world_trace w))
+  | _ => None
+  end = Some (None, Some T.ev_print, ex_state).
+Proof. vm_compute. reflexivity. Qed.
+
+(** an enumeration error is returned and printTableInfo is not called *)
+Example C14_trans_init_error :
+  match go_acpi_acpiDriver_DriverInit 200 w0 0x2000 true ld (T.o_idmap (fun k => k =? 4)) with
+  | GOk (w, e) => Some (e, existsb (fun c => match c with GCall n _ => String.eqb n "printTableInfo" end) (f_world_trace w))
+  | _ => None
+  end = Some (Some "errMap"%string, false).
+Proof. vm_compute. reflexivity. Qed.
+
+(** scan, driver, enumeration in one run: the registered tables are the model's *)
+Example C14_trans_probe_then_init_run :
+  match T.probe_then_init 200 [] ld 16 0x105f 0x1000 (T.o_map None 0) (T.o_idmap nofail) with
+  | GOk (w, r) => Some (r, st_tmap (T.abs (f_world_trace w)), st_events (T.abs (f_world_trace w)))
+  | _ => None
+  end = Some ((true, None), [(DSDT, 0x3400); (FACP, 0x3200); (APIC, 0x3000)], [EvMismatch SSDT 0x3100 36]).
+Proof. vm_compute. reflexivity. Qed.
+
+(** the window behind the revision-2 pointer: the revision-0 pointer names 0x7000, where there is no table: the probe
+    returns a driver and DriverInit faults on the header (model: PFound, then IStray) *)
+Example C14_trans_probe_then_init_stray :
+  T.probe_then_init 200 [] ld 16 0x105f 0x1030 (T.o_map None 0) (T.o_idmap nofail) = GPanic.
+Proof. vm_compute. reflexivity. Qed.
+
+Example C14_probe_then_init_trans_nonvacuous :
+  bytes_ok ex_mem /\ 0x1000 < two64 /\ 0 < 16 /\ 0x105f + 16 <= two64 /\
+  (N.to_nat (T.locate_fuel 0x1000 0x105f 16) < N.to_nat two32)%nat /\ (N.to_nat two32 <= N.to_nat two32)%nat /\
+  exists tr, T.probe_then_init (N.to_nat two32) [] ld 16 0x105f 0x1000 (T.o_map None 0) (T.o_idmap nofail) =
+             GOk (mk_go_acpi_world (T.ev_print :: tr), (true, None)) /\ T.abs tr = ex_state.
+Proof.
+  assert (H1 : 0x1000 < two64) by (unfold two64; lia).
+  assert (H2 : 0 < 16) by lia.
+  assert (H3 : 0x105f + 16 <= two64) by (unfold two64; lia).
+  assert (H4 : (N.to_nat (T.locate_fuel 0x1000 0x105f 16) < N.to_nat two32)%nat).
+  { assert (Hx : T.locate_fuel 0x1000 0x105f 16 < 100) by (vm_compute; reflexivity).
+    revert Hx. generalize (T.locate_fuel 0x1000 0x105f 16). intros a Hx. unfold two32. lia. }
+  split; [exact C14_bytes_ok_nonvacuous|]. split; [exact H1|]. split; [exact H2|]. split; [exact H3|]. split; [exact H4|]. split; [apply le_n|].
+  pose proof (C14_probe_then_init_is_translation ex_mem 0x1000 0x105f 16 None nofail (N.to_nat two32)
+                C14_bytes_ok_nonvacuous H1 H2 H3 H4 (le_n _)) as H.
+  cbv zeta in H.
+  assert (Hl : locateRSDT ex_mem 0x1000 0x105f 16 None = (PFound 0x2000 true, 1, 1)) by (vm_compute; reflexivity).
+  rewrite Hl in H.
+  assert (Hd : exists info, driverInit ex_mem nofail 0x2000 true = (ex_state, IOk, info)) by (eexists; vm_compute; reflexivity).
+  destruct Hd as (info & Hd). rewrite Hd in H. exact H.
+Qed.
